@@ -37,14 +37,14 @@ type CtlConfig struct {
 	SyncHook         bool              `json:"syncHook"`
 	CustomizeHook    bool              `json:"customizeHook,omitempty"`
 	SSA              bool              `json:"ssa,omitempty"`
-	ParentSelector   map[string]string `json:"parentSelector,omitempty"`     // controller-level label selector on parents
+	ParentSelector   map[string]string `json:"parentSelector,omitempty"`      // controller-level label selector on parents
 	ParentAnnSel     map[string]string `json:"parentAnnotationSel,omitempty"` // decorator annotation selector
 	// SelAsExpressions renders both selectors as matchExpressions (key In [value]) instead of matchLabels.
-	SelAsExpressions bool `json:"selectorsAsExpressions,omitempty"`
-	FieldPaths       []string          `json:"fieldPaths,omitempty"`
-	IgnoreStatus     bool              `json:"ignoreStatusChanges,omitempty"`
-	Strict           bool              `json:"strict,omitempty"`
-	Etag             bool              `json:"etag,omitempty"`
+	SelAsExpressions bool     `json:"selectorsAsExpressions,omitempty"`
+	FieldPaths       []string `json:"fieldPaths,omitempty"`
+	IgnoreStatus     bool     `json:"ignoreStatusChanges,omitempty"`
+	Strict           bool     `json:"strict,omitempty"`
+	Etag             bool     `json:"etag,omitempty"`
 	// RealRelatedInformers: the customize manager creates its related informers lazily
 	// through a real SharedInformerFactory over the simulator (instead of pre-seeded ones).
 	RealRelatedInformers bool `json:"realRelatedInformers,omitempty"`
@@ -74,7 +74,7 @@ func (cfg *CtlConfig) labelSelector(m map[string]string) *metav1.LabelSelector {
 	}
 	return ls
 }
-func boolp(b bool) *bool    { return &b }
+func boolp(b bool) *bool { return &b }
 
 func webhook(url string, cfg *CtlConfig) *v1alpha1.Hook {
 	wh := &v1alpha1.Webhook{URL: strp(url)}
